@@ -389,6 +389,39 @@ func scenarios(o *common.Opts) []*callsim.Scenario {
 				Calls:   []callsim.CallSpec{cs}, Record: true})
 		}
 	}
+	// transport kinds: ssl endpoints (the client trusts a run-time self-signed certificate through the ordinary
+	// client configuration <ca>) whose peer misbehaves DURING connection establishment — TCP accepted but never a
+	// ServerHello, bytes that are not TLS, closed after the ClientHello, a handshake that starts only long after
+	// the dial timeout — and udp endpoints. Connection establishment, handshake included, is bounded by DialTimeout;
+	// afterwards a call on a fresh connection must succeed.
+	{
+		mk := func(name string, srv callsim.ServerSpec, conc int, mustOK bool, second bool) {
+			cl := callsim.ClientConf{WriteTimeoutMs: -1, DialTimeoutMs: 400, ProxyTimeoutMs: 300}
+			var calls []callsim.CallSpec
+			for c := 0; c < conc; c++ {
+				calls = append(calls, callsim.CallSpec{Wave: 0, Timeout: kinds[c%3], TimeoutMs: 300, MustOK: mustOK})
+			}
+			if second {
+				calls = append(calls, callsim.CallSpec{Wave: 1, Timeout: "ctx", TimeoutMs: 1500, MustOK: true})
+			}
+			add(&callsim.Scenario{Name: name, Class: name, Client: cl, Servers: []callsim.ServerSpec{srv}, Calls: calls,
+				GapMs: 100, CapMs: 5000, Record: true})
+		}
+		mk("tls-good", callsim.ServerSpec{Kind: "normal", Transport: "ssl"}, 2, true, true)
+		for mi, mode := range []string{"silent", "garbage", "close", "slow"} {
+			conc := 1 + mi%2
+			if o.Thorough() {
+				conc = 2
+			}
+			cname := map[string]string{"silent": "stall", "garbage": "garbage", "close": "close", "slow": "slow"}[mode]
+			mk("tls-handshake-"+cname, callsim.ServerSpec{Kind: "normal", Transport: "ssl", BadConns: conc, BadMode: mode, SlowMs: 1900}, conc, false, true)
+			if o.Thorough() {
+				mk("tls-handshake-"+cname, callsim.ServerSpec{Kind: "normal", Transport: "ssl", BadConns: 1, BadMode: mode, SlowMs: 1900}, 1, false, true)
+			}
+		}
+		mk("udp-echo", callsim.ServerSpec{Kind: "udp"}, 2, true, true)
+		mk("udp-mute", callsim.ServerSpec{Kind: "udp", Rules: []callsim.Rule{{From: 0, To: 0, Mode: "silent"}}}, 1, false, true)
+	}
 	// callers queue up behind the dial lock of an endpoint that does not answer the dial
 	{
 		cl := callsim.ClientConf{WriteTimeoutMs: -1, DialTimeoutMs: 500, ProxyTimeoutMs: 200}
@@ -709,7 +742,7 @@ func main() {
 		lines[i].check(a)
 	}
 	res.Rule = "real client in child processes against fake servers: silent / late / slow / close after request / close on accept / garbage frame / garbage body / refuse / black hole / never reading, " +
-		"x timeout source (configured, per-call, context) x 1-8 concurrent callers; dispatch path (no filter, single client filter, middleware chain, pre+post filters) x timeout source x {silent, far too late} in full; boundary deadlines (timeout 0 / 1 ms / negative / MaxInt32 ms, expired context, context later than the configured timeout) x source x path x {silent, late};  wall clock vs effective deadline + DialTimeout + 700 ms; counters through the verif export after every wave; " +
+		"x timeout source (configured, per-call, context) x 1-8 concurrent callers; dispatch path (no filter, single client filter, middleware chain, pre+post filters) x timeout source x {silent, far too late} in full; ssl endpoints whose peer stalls / garbles / closes / delays the TLS handshake, and udp endpoints; boundary deadlines (timeout 0 / 1 ms / negative / MaxInt32 ms, expired context, context later than the configured timeout) x source x path x {silent, late};  wall clock vs effective deadline + DialTimeout + 700 ms; counters through the verif export after every wave; " +
 		"server resets / garbles the shared connection under 8 concurrent callers (storm) and the forced interleaving 'close of an already replaced connection' (verif yield points), each followed by plain calls; 2-3 ServantProxy objects sharing one adapter with overlapping calls (per-proxy queueLen, burst of ObjQueueMax calls per proxy afterwards); a further call after a late reply; histories with <= 2 concurrent callers replayed through the LTS; non-trivial = every scenario"
 	if err := res.Write(o.Out); err != nil {
 		panic(err)
